@@ -133,13 +133,33 @@ def gen_case(rng, cfg, nops):
         return rng.below(univ)
 
     def ins(i, k=None):
+        # every insert overload of the facades: insert(v), insert(hint, v), insert2(k, d), insert2(hint, k, d),
+        # operator[] (unique maps; elsewhere the harness falls back to insert(v)), insert(first, last)
         k = rng.below(univ) if k is None else k
+        r = rng.below(100)
+        if r < 8:
+            items = [(max(0, k + rng.range(-2, 2)) if rng.chance(1, 2) else rng.below(univ), newd()) for _ in range(rng.range(1, 6))]
+            ops.append("IR,%d,%d" % (i, len(items)) + "".join(",%d,%d" % x for x in items))
+            for kk, dd in items:
+                sh[i].insert(kk, dd)
+            return
         d = newd()
-        ops.append("I,%d,%d,%d" % (i, k, d)); sh[i].insert(k, d)
+        if r < 55:
+            ops.append("I,%d,%d,%d" % (i, k, d))
+        elif r < 72:
+            ops.append("Ih,%d,%d,%d,%d" % (i, k, d, rng.below(3)))
+        elif r < 82:
+            ops.append("I2,%d,%d,%d" % (i, k, d))
+        elif r < 88:
+            ops.append("Ih2,%d,%d,%d,%d" % (i, k, d, rng.below(3)))
+        else:
+            ops.append("Ib,%d,%d,%d" % (i, k, d))
+        sh[i].insert(k, d)
 
     def query(i, k=None):
+        # lookups through the mutable object and (suffix c) through a const reference
         k = key_near(i) if k is None else k
-        ops.append("%s,%d,%d" % (rng.choice(["F", "X", "C", "L", "U", "R"]), i, k))
+        ops.append("%s,%d,%d" % (rng.choice(["F", "X", "C", "L", "U", "R", "Fc", "Lc", "Uc", "Rc", "Uc", "Rc"]), i, k))
 
     def erase_iter(i):
         if not sh[i].l:
@@ -190,11 +210,17 @@ def gen_case(rng, cfg, nops):
             if i != j:
                 ops.append("CC,%d,%d" % (i, j)); sh[i].l = list(sh[j].l)
         elif r < 7:
-            ops.append("SW,%d,%d" % (i, j)); sh[i].l, sh[j].l = sh[j].l, sh[i].l
+            ops.append("%s,%d,%d" % (rng.choice(["SW", "SWs"]), i, j)); sh[i].l, sh[j].l = sh[j].l, sh[i].l
         elif r < 9:
             ops.append("CMP,%d,%d" % (i, j))
-        else:
+        elif rng.chance(1, 2):
             ops.append("CL,%d" % i); sh[i].l = []
+        else:   # destroy + one of the four range constructors (with/without comparator, allocator)
+            items = [(rng.below(univ), newd()) for _ in range(rng.below(2 * leaf + 3))]
+            ops.append("CR,%d,%d,%d" % (i, rng.below(4), len(items)) + "".join(",%d,%d" % x for x in items))
+            sh[i].l = []
+            for kk, dd in items:
+                sh[i].insert(kk, dd)
 
     if mode == 4 or (mode == 5 and rng.chance(1, 2)):
         bulk(0)
@@ -439,6 +465,7 @@ def main(pid):
                 for tok, op in zip(ta, c.split()[1:]):
                     nm = op.split(",")[0]
                     ophist[nm] = ophist.get(nm, 0) + 1
+                    nm = {"Ih": "I", "I2": "I", "Ih2": "I", "Ib": "I", "IR": "I"}.get(nm, nm)
                     bk = book_part(tok).split(".")
                     if len(bk) == 5:
                         maxinner = max(maxinner, int(bk[3]))
@@ -528,7 +555,8 @@ def main(pid):
         "structure_agreement": "%d/%d dumped real trees are node-for-node equal to the model's tree" % (struct_agree, struct_total),
         "focus": focus,
     }, assumptions=[
-        "iterators are modelled as ranks; the harness checks iterator identity against a walk from begin()",
+        "iterators are modelled as ranks; the harness checks iterator identity against a walk from begin() (const_iterator: from the const begin())",
+        "overload variants (const lookups, insert with hint, insert2, operator[], insert(range), range/allocator constructors, std::swap) are chosen per operation from the seed and have the model semantics of the base operation",
         "leaf-chain pointers are derived (in-order leaves); their maintenance is covered by forward/reverse iteration and verify() in the harness",
         "results are canonicalised within runs of equivalent keys (order there is left open by the property)",
         "extraction: ExtrOcamlBasic only; keys/values instantiated with OCaml int in the driver, counters stay Coq nat",
